@@ -258,10 +258,9 @@ class RaisesValidator(Validator):
 
     def _validate(self, args: Args, kwargs: Kwargs, exc: Exception | None = None) -> None:
         assert exc is not None
-        exc_type = type(exc)
-        if exc_type in self.exceptions:
+        if isinstance(exc, self.exceptions):
             return
-        raise self._exception() from exc_type
+        raise self._exception() from exc
 
 
 class ReasonValidator(Validator):
